@@ -5,6 +5,10 @@ import hashlib
 
 from lib import hx
 
+EXTRA_PROPS = ['C17Utf8']
+
+EXTRACT = ['gen.c17utf8']
+
 RULE = ("the three published vectors; digests forced by search to have top bit set / leading zero "
         "nibbles / leading zero byte; seeded random (server id incl. non-ASCII, secret 16 B, key "
         "0..400 B); raw digests through minecraft_sha1_hash_digest; distinct by input triple")
